@@ -236,10 +236,13 @@ func (wd *world) step(a act, rng *rand.Rand) (act, bool) {
 	p := wd.ps[a.P-1]
 	switch a.Op {
 	case "call":
-		if p.status != "idle" || len(a.Ks) == 0 {
+		if p.status != "idle" {
 			return a, false
 		}
-		ks := append([]int(nil), a.Ks...)
+		ks := append([]int{}, a.Ks...)
+		if len(ks) == 0 && !wd.l.multi() {
+			return a, false // the single-key lockers have no call that takes a list
+		}
 		if !wd.l.multi() {
 			ks = ks[:1]
 		}
@@ -249,13 +252,13 @@ func (wd *world) step(a act, rng *rand.Rand) (act, bool) {
 				return a, false
 			}
 			for _, hk := range pq.ks {
-				if hk >= ks[0] {
+				if len(ks) > 0 && hk >= ks[0] {
 					return a, false
 				}
 			}
 		}
 		a.Ks = ks
-		p.ks, p.m, p.multi, p.status = ks, a.M, rng.Intn(2) == 0, "parked"
+		p.ks, p.m, p.multi, p.status = ks, a.M, rng.Intn(2) == 0 || len(ks) == 0, "parked"
 		l, m, multi := wd.l, a.M, p.multi
 		wd.x.Issue(a.P, func() interface{} { return guard(func() { l.lock(ks, m, multi) }) })
 	case "unlock":
@@ -436,6 +439,9 @@ func randPlan(rng *rand.Rand, nprocs, nkeys, n int) []act {
 			ks := orderedSublist(rng, nkeys)
 			if rng.Intn(2) == 0 {
 				ks = ks[:1]
+			}
+			if rng.Intn(25) == 0 {
+				ks = []int{} // a list that filtered down to nothing: holds nothing, must return, must not matter
 			}
 			out = append(out, act{Op: "call", P: p, Ks: ks, M: m})
 		} else {
